@@ -237,15 +237,13 @@ def flow_rule(db, ctx):
     for c, _ in walk(cc.hir):
         if is_call(c) and path_ends(callee(c) or "", "node::concat_nodes"):
             a = call_args(c)
-            last = peel(a[3]) if len(a) > 3 else None
-            if isinstance(last, dict) and is_call(last) and (callee(last) or last.get("path") or "").split("::")[-1] == "Some":
-                n += 1
-                os_ = origins(db, cc, call_args(last)[0], depth=3)
-                src = [o for o in os_ if isinstance(o, tuple) and o and o[0] == "call" and path_ends(o[1] or "", NP + "::get_normalized")]
-                ctx.ob("concat|normalized-form<-parser", bool(src),
-                       "JoinNumericPlugin::concat: the normalised form handed to concat_nodes comes from NumericParser::get_normalized: %s" % bool(src), fn=cc)
-    ctx.ob("concat|some", n >= 1, "%d concat_nodes call(s) with an explicit normalised form (floor 1)" % n, fn=cc, nontrivial=False)
-    ctx.floor(6)
+            if len(a) > 3:
+                os_ = origins(db, cc, a[3], depth=4)
+                if any(isinstance(o, tuple) and o and o[0] == "call" and path_ends(o[1] or "", NP + "::get_normalized") for o in os_):
+                    n += 1
+    ctx.ob("concat|normalized-form<-parser", n >= 1,
+           "JoinNumericPlugin::concat: %d concat_nodes call(s) whose normalised-form argument comes from NumericParser::get_normalized (floor 1)" % n, fn=cc)
+    ctx.floor(5)
 
 
 def _join_ev(done_val, sep_val):
@@ -286,10 +284,12 @@ def join_guard(db, ctx):
         r_rej_nosep = holds_at(pcs, _join_ev(False, False))
         r_rej_sep = holds_at(pcs, _join_ev(False, True))
         end = nf(call_args(c)[3]) if len(call_args(c)) > 3 else None
+        mentions_state = any(not isinstance(cnd, tuple) and any(x.get("k") == "Field" and x.get("name") == "error_state" for x, _ in walk(cnd)) for cnd, pol in (pcs or []))
         if r_acc is not False and r_rej is False:
             kind = "accepted"
             normal_ends.append(end)
-        elif r_acc is False and r_rej_nosep is False and r_rej_sep is not False:
+        elif r_acc is False and (mentions_state or (r_rej_nosep is False and r_rej_sep is not False)):
+            # in the rejected branch, under a test of the parser's error state (written inline, in a helper, or as a match)
             kind = "trailing-separator"
         else:
             kind = "unguarded"
